@@ -79,6 +79,7 @@ class FuncInfo:
     is_property: bool = False
     is_setter: bool = False
     is_static: bool = False
+    is_classmethod: bool = False
     nested: Dict[str, 'FuncInfo'] = field(default_factory=dict)
 
     @property
@@ -142,6 +143,7 @@ def normalise_tree(tree: ast.AST) -> None:
        N4  `CONST == x` (constant-like operand on the left of == != is is not) ->  `x == CONST`
        N5  (after indexing) keyword arguments of dataclass constructors that continue the positional ones -> positional
        N6  `for ...: if c: continue; REST`                                   ->  `for ...: if not c: REST`
+       N15 `match S: case A: X  case _: Z` (value / or / singleton / bare class patterns, guards) -> `if S == A: X else: Z`
     Node positions of the kept nodes are unchanged."""
     for fn in [n for n in ast.walk(tree) if isinstance(n, (ast.FunctionDef, ast.AsyncFunctionDef))]:
         counts: Dict[str, int] = {}
@@ -235,6 +237,56 @@ def normalise_tree(tree: ast.AST) -> None:
                 return ast.copy_location(ast.JoinedStr(values=merged), node)
             return node
     Fold().visit(tree)
+
+    # N15  `match S: case A: X  case B | C: Y  case _: Z`  (value / singleton / or / class-without-arguments / wildcard patterns,
+    #       guards)  ->  `if S == A: X elif S == B or S == C: Y else: Z`
+    def pattern_test(subj: ast.expr, pat) -> Optional[ast.expr]:
+        import copy as _copy
+        if isinstance(pat, ast.MatchValue):
+            return ast.Compare(left=_copy.deepcopy(subj), ops=[ast.Eq()], comparators=[pat.value])
+        if isinstance(pat, ast.MatchSingleton):
+            return ast.Compare(left=_copy.deepcopy(subj), ops=[ast.Is()], comparators=[ast.Constant(value=pat.value)])
+        if isinstance(pat, ast.MatchOr):
+            parts = [pattern_test(subj, p_) for p_ in pat.patterns]
+            if any(x is None for x in parts):
+                return None
+            return ast.BoolOp(op=ast.Or(), values=parts)
+        if isinstance(pat, ast.MatchClass) and not pat.patterns and not pat.kwd_patterns:
+            return ast.Call(func=ast.Name(id='isinstance', ctx=ast.Load()), args=[_copy.deepcopy(subj), pat.cls], keywords=[])
+        if isinstance(pat, ast.MatchAs) and pat.pattern is None and pat.name is None:
+            return ast.Constant(value=True)
+        return None
+
+    class MatchToIf(ast.NodeTransformer):
+        def visit_Match(self, node):
+            self.generic_visit(node)
+            subj = node.subject
+            if not all(isinstance(x, (ast.Name, ast.Attribute, ast.expr_context)) for x in ast.walk(subj)):
+                return node
+            tests = []
+            for c in node.cases:
+                t = pattern_test(subj, c.pattern)
+                if t is None:
+                    return node
+                if c.guard is not None:
+                    t = c.guard if isinstance(t, ast.Constant) and t.value is True else ast.BoolOp(op=ast.And(), values=[t, c.guard])
+                tests.append((t, c.body))
+            out = None
+            for t, body in reversed(tests):
+                if isinstance(t, ast.Constant) and t.value is True:
+                    out = list(body)            # the wildcard: everything after it is unreachable
+                else:
+                    out = [ast.If(test=t, body=list(body), orelse=out or [])]
+            if not out:
+                return node
+            for st in out:
+                for x in ast.walk(st):
+                    if not hasattr(x, 'lineno') and isinstance(x, (ast.expr, ast.stmt)):
+                        ast.copy_location(x, node)
+            return out if len(out) > 1 or not isinstance(out[0], ast.If) else out[0]
+    if any(isinstance(x, ast.Match) for x in ast.walk(tree)):
+        MatchToIf().visit(tree)
+        ast.fix_missing_locations(tree)
 
     # N6  guard clauses of a loop body, in every tail position of the iteration:
     #       `if c: continue` + REST        ->  `if not c: REST`
@@ -668,10 +720,43 @@ class Program:
                                 call, want_value = st.value, True
                             else:
                                 continue
+                            outer_call = None
+                            if want_value:
+                                # `return Cls(obj.helper('tag', parse_x))`: the templated helper call may be the only impure
+                                # argument of a constructor / function call; what is evaluated before it must be pure
+                                def pure_(e_) -> bool:
+                                    return all(isinstance(x, (ast.Name, ast.Attribute, ast.Constant, ast.expr_context, ast.keyword))
+                                               for x in ast.walk(e_))
+                                inner = [a_ for a_ in list(call.args) + [k_.value for k_ in call.keywords] if isinstance(a_, ast.Call)]
+                                others = [a_ for a_ in list(call.args) + [k_.value for k_ in call.keywords] if not isinstance(a_, ast.Call)]
+                                if len(inner) == 1 and all(pure_(a_) for a_ in others) and pure_(call.func) and (
+                                        any(isinstance(self.resolve_expr_symbol(caller.module, x), (FuncInfo, ClassInfo))
+                                            for x in list(inner[0].args) + [k_.value for k_ in inner[0].keywords]
+                                            if isinstance(x, (ast.Name, ast.Attribute)))):
+                                    outer_call, call = call, inner[0]
                             fnm = call.func.id if isinstance(call.func, ast.Name) else getattr(call.func, 'attr', None)
-                            if n_sites.get(fnm, 0) != 1:
+                            # a "template" helper: called with a function / class of the package as an argument (a parser, a
+                            # factory ...): every call site is an instantiation of the template, inlined at each of them
+                            def is_ref(a_) -> bool:
+                                sym_ = self.resolve_expr_symbol(caller.module, a_) if isinstance(a_, (ast.Name, ast.Attribute)) else None
+                                return isinstance(sym_, (FuncInfo, ClassInfo))
+                            templated = any(is_ref(a_) for a_ in call.args) or any(is_ref(k_.value) for k_ in call.keywords)
+                            if n_sites.get(fnm, 0) != 1 and not templated:
                                 continue
                             callee, recv = None, None
+                            if isinstance(call.func, ast.Attribute) and isinstance(call.func.value, ast.Name) and \
+                                    call.func.value.id not in ('self', 'cls') and templated:
+                                # a method of a helper object held by a single-definition local (`elt = ElementHelper(...)`)
+                                ov = call.func.value.id
+                                ds = [x for x in ast.walk(caller.node) if isinstance(x, ast.Assign) and len(x.targets) == 1 and
+                                      isinstance(x.targets[0], ast.Name) and x.targets[0].id == ov]
+                                st_ = [x for x in ast.walk(caller.node) if isinstance(x, ast.Name) and x.id == ov and isinstance(x.ctx, ast.Store)]
+                                if len(ds) == 1 and len(st_) == 1 and isinstance(ds[0].value, ast.Call):
+                                    csym = self.resolve_expr_symbol(caller.module, ds[0].value.func)
+                                    if isinstance(csym, ClassInfo) and csym.module is caller.module:
+                                        m = self.lookup_method(csym, call.func.attr)
+                                        if m is not None and not m.is_static and not m.is_classmethod and not m.is_property:
+                                            callee, recv = m, call.func.value
                             if isinstance(call.func, ast.Name):
                                 sym = self.resolve_name(caller.module, call.func.id)
                                 if isinstance(sym, FuncInfo) and sym.module is caller.module and sym.cls is None and sym is not caller:
@@ -684,7 +769,7 @@ class Program:
                                     callee, recv = m, (call.func.value if not m.is_static else None)
                             if callee is None:
                                 continue
-                            if want_value and not callee.name.startswith('_'):
+                            if want_value and not callee.name.startswith('_') and not templated:
                                 continue        # N13 only for private steps: public functions are units of their own for the rules
                             body = body_of(callee, want_value)
                             if body is None or any(isinstance(a_, ast.Starred) for a_ in call.args) or \
@@ -752,7 +837,13 @@ class Program:
                                 pre = [Sub().visit(copy.deepcopy(b_)) for b_ in body[:-1]]
                                 val = Sub().visit(copy.deepcopy(body[-1].value))
                                 last = copy.copy(st)
-                                last.value = val
+                                if outer_call is not None:
+                                    oc = copy.copy(outer_call)
+                                    oc.args = [val if a_ is call else a_ for a_ in outer_call.args]
+                                    oc.keywords = [ast.keyword(arg=k_.arg, value=val) if k_.value is call else k_ for k_ in outer_call.keywords]
+                                    last.value = oc
+                                else:
+                                    last.value = val
                                 new = pre + [last]
                             else:
                                 new = [Sub().visit(copy.deepcopy(b_)) for b_ in nest(body)]
@@ -765,7 +856,7 @@ class Program:
                                         x.end_lineno, x.end_col_offset = getattr(st, 'end_lineno', 0), getattr(st, 'end_col_offset', 0)
                             blk[i:i + 1] = new
                             self.inlined.append((caller.fq, callee.fq))
-                            if callee.name.startswith('_') and not callee.name.startswith('__'):
+                            if callee.name.startswith('_') and not callee.name.startswith('__') and n_sites.get(fnm, 0) == 1:
                                 # a private step with this single call site: everything it does is in the caller now
                                 self._drop_function(callee)
                             changed = True
@@ -1050,11 +1141,14 @@ class Program:
         index_nested(fi, node)
         return fi
 
-    def bind_call(self, mod: Module, call: ast.Call) -> Dict[str, ast.expr]:
+    def bind_call(self, mod: Module, call: ast.Call, callee: Optional['FuncInfo'] = None) -> Dict[str, ast.expr]:
         """parameter / field name -> argument expression of a call of a package class or function, however the source
-        spells it (positional or keyword).  Unresolved callees: the keywords only."""
+        spells it (positional or keyword).  Unresolved callees: the keywords only.  `callee`: the function a type
+        environment resolved the call to (method calls on typed receivers), used when the name alone does not say."""
         out: Dict[str, ast.expr] = {}
-        sym = self.resolve_expr_symbol(mod, call.func)
+        sym = self.resolve_expr_symbol(mod, call.func) if isinstance(call.func, (ast.Name, ast.Attribute)) else None
+        if not isinstance(sym, (ClassInfo, FuncInfo)) and callee is not None:
+            sym = callee
         names: List[str] = []
         if isinstance(sym, ClassInfo):
             init = self.lookup_method(sym, '__init__')
@@ -1127,6 +1221,8 @@ class Program:
                 fi.is_property = True
             if isinstance(dec, ast.Name) and dec.id == 'staticmethod':
                 fi.is_static = True
+            if isinstance(dec, ast.Name) and dec.id == 'classmethod':
+                fi.is_classmethod = True
             if isinstance(dec, ast.Attribute) and dec.attr == 'setter':
                 fi.is_setter = True
         if fi.is_setter:
@@ -1408,7 +1504,8 @@ class TypeEnv:
         params = f.params()
         for i, a in enumerate(params):
             if i == 0 and f.cls is not None and not f.is_static and f.parent is None and a.arg in ('self', 'cls'):
-                self.vars[a.arg] = t_cls(f.cls.fq)
+                # in a classmethod `cls` is the class itself: `cls(...)` constructs an instance
+                self.vars[a.arg] = ('type', f.cls.fq) if f.is_classmethod else t_cls(f.cls.fq)
                 continue
             self.vars[a.arg] = self.prog.ann_to_type(f.module, a.annotation, f.cls)
         pos = list(args.posonlyargs) + list(args.args)
@@ -1767,7 +1864,78 @@ class TypeEnv:
             via = self._table_callees(e)
             if via:
                 return via
+            if isinstance(e.func, ast.Name) and e.func.id in [a.arg for a in self.fn.params()] and \
+                    e.func.id not in self._assign_sites:
+                via = self._param_callees(e.func.id)
+                if via:
+                    return via
         return out
+
+    def _param_callees(self, pname: str) -> List[Any]:
+        """A parameter that is called (`item_parser(item)`): the functions of the package that the call sites of this
+        function pass for it.  None when some call site passes something that is not a plain function reference."""
+        prog = self.prog
+        fn = self.fn
+        key = ('param-callees', fn.fq, pname)
+        cache = prog.__dict__.setdefault('_param_callee_cache', {})
+        if key in cache:
+            return cache[key]
+        cache[key] = []          # recursion guard
+        out: List[Any] = []
+        names = [a.arg for a in fn.params()]
+        bound = fn.cls is not None and not fn.is_static and names[:1] in (['self'], ['cls'])
+        ok = True
+        n_sites = 0
+        for mod in prog.modules.values():
+            for call in [n for n in ast.walk(mod.tree) if isinstance(n, ast.Call)]:
+                f = call.func
+                nm = f.id if isinstance(f, ast.Name) else f.attr if isinstance(f, ast.Attribute) else None
+                if nm != fn.name:
+                    continue
+                if isinstance(f, ast.Name) and prog.resolve_name(mod, nm) is not fn and fn.cls is None:
+                    continue
+                n_sites += 1
+                params = names[1:] if bound and isinstance(f, ast.Attribute) else names
+                arg = None
+                for i, a in enumerate(call.args):
+                    if isinstance(a, ast.Starred):
+                        break
+                    if i < len(params) and params[i] == pname:
+                        arg = a
+                for k in call.keywords:
+                    if k.arg == pname:
+                        arg = k.value
+                if arg is None:
+                    continue        # default value
+                sym = prog.resolve_expr_symbol(mod, arg) if isinstance(arg, (ast.Name, ast.Attribute)) else None
+                if sym is None and isinstance(arg, ast.Attribute) and isinstance(arg.value, ast.Name) and arg.value.id in ('self', 'cls'):
+                    encl = prog.enclosing_function(arg)
+                    for fi in prog.functions.values():
+                        if fi.node is encl and fi.cls is not None:
+                            sym = prog.lookup_method(fi.cls, arg.attr)
+                if isinstance(sym, FuncInfo):
+                    if sym not in out:
+                        out.append(sym)
+                elif isinstance(sym, ClassInfo):
+                    for c_ in self._ctor_callees(sym):
+                        if not any(c_ is o_ or c_ == o_ for o_ in out):
+                            out.append(c_)
+                elif isinstance(arg, ast.Name):
+                    # handed on from the caller's own parameter: follow one more level
+                    encl = prog.enclosing_function(arg)
+                    fi = next((x for x in prog.functions.values() if x.node is encl), None)
+                    if fi is not None and arg.id in [a_.arg for a_ in fi.params()] and fi is not fn:
+                        more = TypeEnv(prog, fi)._param_callees(arg.id)
+                        for m_ in more:
+                            if m_ not in out:
+                                out.append(m_)
+                    else:
+                        ok = False
+                else:
+                    ok = False
+        res = out if ok and n_sites else []
+        cache[key] = res
+        return res
 
     def _table_consts(self, x: ast.AST) -> List[Tuple[ast.AST, Module]]:
         """Module-level constant displays (dict / tuple / list / constructor call) of the package that the value of `x` may
